@@ -152,9 +152,15 @@ func (prophet *Prophet) transitivity(peer bpv7.EndpointID) {
 
 // sendMetadata sends our summary-vector with our delivery predictabilities to a peer
 func (prophet *Prophet) sendMetadata(destination bpv7.EndpointID) {
+	// The block gets a copy of the predictabilities. The bundle is serialised later by a CLA, concurrently to the next
+	// updates of this map.
 	prophet.dataMutex.RLock()
 	source := prophet.c.NodeId
-	metadataBlock := bpv7.NewProphetBlock(prophet.predictabilities)
+	predictabilities := make(map[bpv7.EndpointID]float64, len(prophet.predictabilities))
+	for peer, pred := range prophet.predictabilities {
+		predictabilities[peer] = pred
+	}
+	metadataBlock := bpv7.NewProphetBlock(predictabilities)
 	prophet.dataMutex.RUnlock()
 
 	err := sendMetadataBundle(prophet.c, source, destination, metadataBlock)
@@ -308,8 +314,10 @@ func (prophet *Prophet) SenderForBundle(bp BundleDescriptor) (sender []cla.Conve
 
 	for _, cs := range prophet.c.claManager.Sender() {
 		peerID := cs.GetPeerEndpointID()
+		prophet.dataMutex.RLock()
 		peerPred := prophet.peerPredictabilities[peerID][destination]
 		ownPred := prophet.predictabilities[destination]
+		prophet.dataMutex.RUnlock()
 
 		// is the peers delivery predictability for the destination greater than ours?
 		if peerPred > ownPred {
